@@ -90,12 +90,18 @@ type PathResult struct {
 }
 
 type Exec struct {
-	prog   *Program
-	cfg    *Config
-	entry  *ssa.Function
-	tc     *TermCtx
-	solver *Solver
-	work   *WorkList
+	spinResets int
+	sigSeen    map[uint64]int
+	sigHeap    int64
+	ranAt      []*G
+	spinning   map[*G]bool
+	fnIDs      map[*ssa.Function]int
+	prog       *Program
+	cfg        *Config
+	entry      *ssa.Function
+	tc         *TermCtx
+	solver     *Solver
+	work       *WorkList
 
 	prefix []Dec
 	trace  []Dec
@@ -494,12 +500,14 @@ func (ex *Exec) spawn(parent *G, fn value, args []value, lib bool, where string)
 	}
 	g.pending = &pendOp{kind: "start", enabled: alwaysEnabled}
 	ex.gs = append(ex.gs, g)
+	ex.heapVersion++
 	go func() {
 		<-g.resume
 		defer func() {
 			p := recover()
 			g.done = true
 			g.pending = nil
+			ex.heapVersion++
 			switch p := p.(type) {
 			case nil:
 			case killSignal:
@@ -570,6 +578,35 @@ func (ex *Exec) schedule() {
 				enabled = append(enabled, g)
 			}
 		}
+		if os.Getenv("FSX_DEBUG") == "2" {
+			str := ""
+			for _, g := range ex.gs {
+				k := "-"
+				if g.pending != nil {
+					k = g.pending.kind
+				}
+				str += fmt.Sprintf("g%d:%s/done=%v/sleep=%v/spin=%v ", g.id, k, g.done, ex.sleep[g], ex.spinning[g])
+			}
+			fmt.Fprintf(os.Stderr, "sched: enabled=%d %s\n", len(enabled), str)
+		}
+		var spinEnabled []*G
+		if len(enabled) > 0 && ex.liveCount() > 1 {
+			ex.detectSpin()
+			if len(ex.spinning) > 0 {
+				var ns []*G
+				for _, g := range enabled {
+					if !ex.spinning[g] {
+						ns = append(ns, g)
+					} else {
+						spinEnabled = append(spinEnabled, g)
+					}
+				}
+				// goroutines on a no-progress cycle are treated as blocked
+				// (weak fairness): others run first; if only spinners remain
+				// the state is quiescent.
+				enabled = ns
+			}
+		}
 		if len(enabled) == 0 {
 			// quiescence
 			var q *G
@@ -579,11 +616,36 @@ func (ex *Exec) schedule() {
 					break
 				}
 			}
-			if q == nil {
+			// a goroutine waiting for a lock that a spinner holds will get it
+			// as the spinner steps on: that is not a quiescent state.
+			lockWait := false
+			for _, g := range ex.gs {
+				if g.done || g.pending == nil || ex.spinning[g] {
+					continue
+				}
+				if m, ok := g.pending.obj.(*Mutex); ok && (g.pending.kind == "lock" || g.pending.kind == "rlock") {
+					if m.owner != nil && ex.spinning[m.owner] {
+						lockWait = true
+					}
+				}
+			}
+			if (q == nil || lockWait) && len(spinEnabled) > 0 && ex.spinResets < 300 {
+				// nobody is waiting for quiescence: a blocked goroutine may
+				// need something a spinner holds - let the spinners step on
+				// (they keep their mark, so a goroutine that becomes enabled
+				// runs first).
+				ex.spinResets++
+				enabled = spinEnabled
+			} else if q == nil {
 				ex.deadlock()
 				break
+			} else {
+				enabled = []*G{q}
 			}
-			enabled = []*G{q}
+		}
+		if len(ex.spinning) > 0 && len(ex.sleep) > 0 {
+			// fairness overrides partial-order pruning while goroutines spin
+			ex.sleep = map[*G]bool{}
 		}
 		var cands []*G
 		for _, g := range enabled {
@@ -594,10 +656,16 @@ func (ex *Exec) schedule() {
 		if len(cands) == 0 {
 			// every enabled transition was already explored from an equivalent state
 			ex.res.Status = "pruned"
+			if os.Getenv("FSX_DEBUG") != "" {
+				fmt.Fprintf(os.Stderr, "pruned(all asleep): enabled=%d spinning=%d trace=%v\n", len(enabled), len(ex.spinning), ex.schedTrace)
+			}
 			break
 		}
 		next := ex.pick(cands, enabled)
 		if next == nil {
+			if os.Getenv("FSX_DEBUG") != "" {
+				fmt.Fprintf(os.Stderr, "pruned(cur asleep): spinning=%d\n", len(ex.spinning))
+			}
 			ex.res.Status = "pruned"
 			break
 		}
@@ -606,8 +674,13 @@ func (ex *Exec) schedule() {
 			ex.clientOrder = append(ex.clientOrder, next.client)
 		}
 		ex.foot = map[interface{}]bool{}
+		ex.ranAt = append(ex.ranAt, next)
 		next.resume <- struct{}{}
 		<-ex.yield
+		if len(ex.spinning) > 0 && !ex.spinning[next] && len(ex.foot) > 0 {
+			ex.spinning = nil
+			ex.sigSeen = nil
+		}
 		for s := range ex.sleep {
 			if s.done || ex.dependent(s) {
 				delete(ex.sleep, s)
@@ -668,6 +741,118 @@ func (ex *Exec) pick(cands, enabled []*G) *G {
 		ex.preemptions++
 	}
 	return ord[i]
+}
+
+// detectSpin looks for a repeated global control state with no intervening
+// change to the heap, channels or contexts: the goroutines that ran in
+// between are on a no-progress cycle.
+func (ex *Exec) detectSpin() {
+	if ex.sigSeen == nil || ex.sigHeap != ex.heapVersion {
+		ex.sigSeen = map[uint64]int{}
+		if ex.sigHeap != ex.heapVersion {
+			ex.spinResets = 0
+		}
+		ex.sigHeap = ex.heapVersion
+		ex.ranAt = ex.ranAt[:0]
+		ex.spinning = nil
+	}
+	sig := ex.signature()
+	if first, ok := ex.sigSeen[sig]; ok {
+		if ex.spinning == nil {
+			ex.spinning = map[*G]bool{}
+		}
+		for _, g := range ex.ranAt[first:] {
+			if !ex.spinning[g] {
+				ex.spinning[g] = true
+				ex.notes = append(ex.notes, fmt.Sprintf("g%d spins without progress at %s", g.id, g.stack(2)))
+			}
+		}
+		return
+	}
+	ex.sigSeen[sig] = len(ex.ranAt)
+}
+
+func mix(h uint64, v uint64) uint64 {
+	h ^= v + 0x9e3779b97f4a7c15 + (h << 6) + (h >> 2)
+	return h
+}
+
+func (ex *Exec) signature() uint64 {
+	if ex.fnIDs == nil {
+		ex.fnIDs = map[*ssa.Function]int{}
+	}
+	var h uint64 = 1469598103934665603
+	for _, g := range ex.gs {
+		h = mix(h, uint64(g.id))
+		if g.done {
+			h = mix(h, 0xdead)
+			continue
+		}
+		if g.pending != nil {
+			h = mix(h, uint64(hashString(g.pending.kind)))
+			for _, o := range g.pending.objects() {
+				h = mix(h, objID(o))
+			}
+		}
+		for f := g.top; f != nil; f = f.caller {
+			id, ok := ex.fnIDs[f.fn]
+			if !ok {
+				id = len(ex.fnIDs) + 1
+				ex.fnIDs[f.fn] = id
+			}
+			h = mix(h, uint64(id))
+			if f.block != nil {
+				h = mix(h, uint64(f.block.Index)<<16|uint64(f.pc))
+			}
+		}
+		for _, o := range g.held {
+			h = mix(h, objID(o)+7)
+		}
+	}
+	// order-independent contribution of the model objects
+	var sum uint64
+	for _, o := range ex.objs {
+		switch o := o.(type) {
+		case *Mutex:
+			v := uint64(o.id) << 8
+			if o.locked {
+				v |= 1
+			}
+			v |= uint64(o.readers) << 1
+			sum += mix(17, v)
+		case *Cond:
+			v := uint64(o.id) << 16
+			for i, w := range o.waiters {
+				x := uint64(w.g.id+1) << 1
+				if w.notified {
+					x |= 1
+				}
+				v = mix(v, x+uint64(i))
+			}
+			sum += mix(23, v)
+		case *WaitGroupM:
+			sum += mix(29, uint64(o.id)<<20|uint64(o.n))
+		}
+	}
+	return mix(h, sum)
+}
+
+func objID(o interface{}) uint64 {
+	switch o := o.(type) {
+	case *Mutex:
+		return uint64(o.id)
+	case *Cond:
+		return uint64(o.id)
+	case *Chan:
+		return uint64(o.id)
+	case *CtxNode:
+		return uint64(o.id)
+	case *WaitGroupM:
+		return uint64(o.id)
+	case string:
+		return uint64(hashString(o))
+	}
+	return 99
 }
 
 func (ex *Exec) deadlock() {
@@ -769,8 +954,8 @@ func (ex *Exec) addViolation(kind, label, detail string, model map[string]uint64
 	vio.Order = append([]int(nil), ex.clientOrder...)
 	if n := len(ex.schedTrace); n > 0 {
 		lo := 0
-		if n > 200 {
-			lo = n - 200
+		if n > 3000 {
+			lo = n - 3000
 		}
 		vio.Trace = append([]string(nil), ex.schedTrace[lo:]...)
 	}
